@@ -618,6 +618,7 @@ def run(res, tier):
     res.rule("SC-4", "a take whose size cannot be a 64-byte multiple (literal ring degree) is not followed by another consumer of the same scratch")
     res.rule("SC-9", "the number of take_<kind>_slice vectors alive together on a path is at most the integer coefficient of the companion's `scalar * bytes_of(kind)` terms")
     res.rule("SC-8", "mirror-form pairs: every operand whose limb count / precision / length the size of a taken temporary depends on also occurs in the companion's term(s) of the same kind (dependence, not arithmetic)")
+    res.rule("SC-10", "a guarded operation called on what is left after a take of its caller does not demand the caller's own companion query again")
     res.rule("SC-7", "at a size-query call site, a usize argument that the caller knows under the name of one of the query's declared parameters (trait declaration names; the caller's own parameters take the names of its trait declaration) sits in that parameter's position")
     res.rule("SC-6", "a temporary created from a layout literal and handed to a nested operation is declared, in the companion, by the nested query evaluated on a literal with equal fields under the parameter correspondence")
     res.rule("SC-5", "only the scratch carver builds scratch views / typed slices from raw bytes")
@@ -640,6 +641,8 @@ def run(res, tier):
         res.floor("SC-8", "direct takes of mirror-form pairs with a same-kind companion term", n8, 40)
         n9 = sc9(p, res, pairs)
         res.floor("SC-9", "operations taking vectors of temporaries", n9, 2)
+        n10 = sc10(p, res, pairs)
+        res.floor("SC-10", "guarded operations called on the remainder of a guarded operation's scratch", n10, 10)
         n7 = sc7(p, res)
         res.floor("SC-7", "size-query call sites with role-named scalar arguments", n7, 20)
         n6 = sc6(p, res, pairs)
@@ -648,6 +651,50 @@ def run(res, tier):
     if tier == "thorough":
         from . import witness
         witness.check(res, ["W2ScratchCarving", "W4NoDanglingTemporaries"])
+
+
+# ------------------------------------------------------------------ SC-10
+def sc10(p, res, pairs):
+    """self-referential declaration: an operation whose entry guard demands Q(..) bytes, which then takes a temporary and hands the *remaining* scratch to another
+    operation whose entry guard demands the same query Q evaluated on that temporary, can never run on Q(..) bytes: the callee's demand plus the temporary exceeds Q
+    whenever Q is monotone in the operand sizes (the temporary is at least as large as the operands it replaces)"""
+    guard_of = {}
+    for uid, (f, comp, corr, how) in pairs.items():
+        if how == "guard":
+            guard_of[f.uid] = comp
+    n = 0
+    for uid in sorted(pairs):
+        f, comp, corr, how = pairs[uid]
+        if how != "guard":
+            continue
+        flow = None
+        for bi, t in f.calls():
+            tg = [u for u in p.targets(f, t) if u in guard_of and u != f.uid]
+            if not tg:
+                continue
+            if flow is None:
+                flow = Flow(f, transparent=SCR_T)
+            # the scratch handed over is what is left after a take of this operation
+            rem = None
+            for a in t["a"]:
+                if a[0] in ("c", "m") and "Scratch<" in f.local_ty(a[1][0])["s"]:
+                    for r in flow.op_roots(a):
+                        if r[0] == "call":
+                            nm = (f.callee_def(f.blocks[r[1]]["t"]) or {}).get("n", "")
+                            if nm.startswith("take_"):
+                                rem = nm
+            if rem is None:
+                continue
+            n += 1
+            same = [u for u in tg if guard_of[u].uid == comp.uid or guard_of[u].name.replace("_default", "") == comp.name.replace("_default", "")]
+            if same:
+                g = p.fns[same[0]]
+                res.bad("SC-10", f.pretty, "nested-guard-same-query:%s" % g.name,
+                        "%s guards its entry with %s, takes a temporary (%s) and passes the remainder to %s, whose entry guard demands %s again (on the temporary): the declared size "
+                        "can never satisfy the nested guard" % (f.pretty, comp.name, rem, g.name, guard_of[same[0]].name), site=f.where(t["l"]))
+            else:
+                res.ok("SC-10", {"op": f.pretty, "callee": p.fns[tg[0]].name, "callee_guard": guard_of[tg[0]].name} if n % 10 == 1 else None)
+    return n
 
 
 # ------------------------------------------------------------------ SC-6
@@ -920,8 +967,8 @@ def sc8(p, res, pairs):
     T = SCR_T + ("to_ref", "to_mut")
     n = 0
     for uid in sorted(pairs):
-        if os.environ.get("PZ_SC8_ALL") != "1" and (uid not in frozen or frozen[uid]["verdict"] != "covered"):
-            continue
+        # every operation/companion pair, mirror form or not: a temporary whose size grows with an operand the companion's term of the same kind never looks at
+        # is an under-declaration whatever the remaining terms are (ggsw_expand_row: dft sized by tsk.size(), declared from res.max_k)
         f, comp, corr, how = pairs[uid]
         flow = Flow(f, transparent=T)
         sym = Sym(f, flow)
@@ -936,15 +983,36 @@ def sc8(p, res, pairs):
         if not mapping:
             for cl, ol in corr.items():
                 mapping[cl] = Poly.atom(("p", ol, ()))
-        # demand: direct takes
+        # demand: direct takes, and takes of free helper functions the operation hands its scratch to (one level, parameters substituted)
         dem = {}
+        bodies = [(f, sym, flow)]
         for bi, t in f.calls():
             d = f.callee_def(t) or {}
+            if d.get("n", "").startswith("take_") or "tr" in d or not d.get("u", "").startswith("poulpy_"):
+                continue
+            h = p.fn(d["u"])
+            if h is None or not h.blocks or h.kind == "Closure" or h.impl_uid or h.trait_item:
+                continue
+            if not any("Scratch<" in f.local_ty(a[1][0])["s"] for a in t["a"] if a[0] in ("c", "m")):
+                continue
+            subst = {(i + 1, ()): sym.operand(a) for i, a in enumerate(t["a"])}
+            hflow = Flow(h, transparent=T)
+            bodies.append((h, Sym(h, hflow, param_subst=subst), hflow))
+        for body, bsym, bflow in bodies:
+          for bi, t in body.calls():
+            d = body.callee_def(t) or {}
             nm = d.get("n", "")
             if not nm.startswith("take_") or nm == "take_slice":
                 continue
-            at = take_atom(f, d, t, lambda op: sym.operand(op))
+            at = take_atom(body, d, t, lambda op, bsym=bsym: bsym.operand(op))
             if at is None:
+                continue
+            if body is not f:
+                for a in at.atoms():
+                    if a[0] == "sz":
+                        ps = set()
+                        magnitude_atom(a, ps, 0)
+                        dem.setdefault(a[1], []).append((ps, f.blocks[0]["t"]["l"] if False else t["l"], nm + "@" + body.name))
                 continue
             for a in at.atoms():
                 if a[0] == "sz":
